@@ -102,6 +102,7 @@ class World:
         self.pending_submit = None
         self.last_sync_gate = None
         self.after_end = []           # observations made after the caller's task finished
+        self.saved = []               # (run, node) of every artifact_store.save that ran to completion
         self.topo = []
         self.classes, self.source = progen.build_classes(spec, self)
         with progen.det_uuids(spec):
@@ -167,6 +168,8 @@ class World:
                 i = world.index_of.get(node_id, -1)
                 world.obs.append(['save', _rid(), i, progen.canon(data)])
                 await _yields('save', i)
+                # the write has completed (a save that is cancelled while it is suspended never gets here)
+                world.saved.append([_rid(), i])
 
             async def load(self, node_id):
                 raise KeyError(node_id)
@@ -534,7 +537,19 @@ def run_program(spec, policy, n_runs=1, inputs=None, drain=True, world=None, kee
         leftovers = []
         if verdict == 'finished' and drain:
             n = 0
-            while loop.ready_tasks() and n < 500:
+            while n < 500:
+                if not loop.ready_tasks():
+                    # bodies and timers that are still outstanding complete after the run ended: nothing may come of it
+                    gs = w.live_gates()
+                    if gs:
+                        w.release(gs[0])
+                    elif loop.live_timers():
+                        loop.fire_next_timer()
+                    if not loop.ready_tasks():
+                        if w.live_gates() or loop.live_timers():
+                            n += 1
+                            continue
+                        break
                 tid = loop.step()
                 n += 1
                 tk = loop.tasks[tid]
@@ -547,6 +562,7 @@ def run_program(spec, policy, n_runs=1, inputs=None, drain=True, world=None, kee
         res = {
             'graph': w.graph, 'spec': spec, 'events': events, 'after': after, 'leftover_tasks': leftovers,
             'live_gates_at_end': [g.key for g in w.live_gates()],
+            'saved_completed': [list(x) for x in w.saved],
             'live_timers_at_end': len(loop.live_timers()),
             'verdict': verdict,
             'results': [list(c.result) if c.result else (['cancelled'] if c.task.cancelled() else None) for c in ctxs],
